@@ -189,6 +189,18 @@ def run_case(case):
                         V.append((key, "%s: check rc=%s errors=%s" % (label, rc.rc, evidence.jsonable(errs[:4])), rep))
                         tainted = True
                     cb2 = b.load_content()
+                    # a split that is not the last used one is full: the file holds exactly the recorded size, also after fix
+                    for p2 in cb2.parities:
+                        if p2.get("legacy"):
+                            continue
+                        ss2 = [s_["size"] for s_ in p2["splits"]]
+                        lastused2 = max([i_ for i_, x_ in enumerate(ss2) if x_ > 0], default=0)
+                        for si2, sz2 in enumerate(ss2[:lastused2]):
+                            pth2 = b.ppaths(p2["level"])[si2] if si2 < len(b.ppaths(p2["level"])) else None
+                            if pth2 and os.path.exists(pth2) and os.path.getsize(pth2) != sz2:
+                                V.append(("non-last-split-file-size-differs-from-recorded-after-fix", "%s: level %d split %d file has %d bytes, recorded %d (sizes %s)" %
+                                          (label, p2["level"], si2, os.path.getsize(pth2), sz2, ss2), rep))
+                                break
                     pp, st = P.check_parity(b, fs, cb2)
                     for pr in pp[:2]:
                         V.append(("split-parity-oracle-mismatch-after-fix", "%s: stripe %d level %d: %s" % (label, pr["pos"], pr["level"], pr["why"]), rep))
